@@ -295,16 +295,18 @@ Framing == \A c \in Clients :
      (s # <<>> /\ s[Len(s)][3] < tot[s[Len(s)][1]]) =>
         (wbuf[c] = <<s[Len(s)][1], s[Len(s)][3]>> \/ ~peerOpen[c] \/ c \notin registered \/ (pc = "drive" /\ dtok = c))
 Starts(s) == SelectSeq(s, LAMBDA ch : ch[2] = 0)
-NoDupSeq(s) == \A i, j \in DOMAIN Starts(s) : i # j => Starts(s)[i][1] # Starts(s)[j][1]
+\* (LET values are computed once; written so that long recorded streams stay cheap to check)
+NoDupSeq(s) == LET st == Starts(s) IN Cardinality({st[i][1] : i \in DOMAIN st}) = Len(st)
 \* metadata known at connect time comes first, metrics keep emission order
-OrderedSeq(s) == \A i, j \in DOMAIN Starts(s) :
-     i < j => LET a == Starts(s)[i][1] b == Starts(s)[j][1] IN (a > 0 => b > 0) /\ (a > 0 /\ b > 0 => a < b)
+\* (stated for neighbours; both conjuncts are transitive, so it is the same as for every pair i < j)
+OrderedSeq(s) == LET st == Starts(s) IN \A i \in 1..(Len(st) - 1) :
+     LET a == st[i][1] b == st[i+1][1] IN (a > 0 => b > 0) /\ (a > 0 /\ b > 0 => a < b)
 NoDuplicateFrame == \A c \in Clients : NoDupSeq(stream[c])
 MetadataFirstAndOrder == \A c \in Clients : OrderedSeq(stream[c])
 \* between transport steps the gate reflects the set of registered clients
 CountConsistent == pc = "poll" => (clientCount = Cardinality(registered) /\ (shouldSend <=> clientCount > 0))
 \* everything ever queued for a client is on the wire, still pending, or was explicitly discarded as oldest
-Started(c) == [i \in DOMAIN Starts(stream[c]) |-> Starts(stream[c])[i][1]]
+Started(c) == LET st == Starts(stream[c]) IN [i \in DOMAIN st |-> st[i][1]]
 PendingIds(c) == (IF wbuf[c] # None /\ wbuf[c][2] = 0 THEN <<wbuf[c][1]>> ELSE <<>>) \o q[c]
 QueueConservation ==
   \A c \in Clients : (c \in registered /\ pc \in {"poll", "fan", "rx"} /\ ~lost
